@@ -115,6 +115,32 @@ def seed_form(seed: Term, idx_param: str, seed_attr: str = "seed", assume=None) 
                  f"injectivity in {idx_param} not decided"
 
 
+def _shared_atoms(fa: FA):
+    """[(term, expression, node)] of atomic truth-valued sub-conditions (no and / or / not at the top) that occur in the tests of
+    at least two branch nodes."""
+    seen: Dict[Term, Set[int]] = {}
+    first: Dict[Term, Tuple[ast.AST, int]] = {}
+
+    def atoms(e):
+        if isinstance(e, ast.BoolOp):
+            for x in e.values:
+                yield from atoms(x)
+        elif isinstance(e, ast.UnaryOp) and isinstance(e.op, ast.Not):
+            yield from atoms(e.operand)
+        else:
+            yield e
+    for n, nd in fa.cfg.nodes.items():
+        if nd.kind == "test" and not isinstance(nd.owner, ast.Assert):
+            for e in atoms(nd.ast):
+                a = fa.sym.term(e, n)
+                if isinstance(a, tuple) and a and a[0] == "not":
+                    a = a[1]
+                if isinstance(a, tuple) and a and a[0] in ("call", "is", "eq", "lt", "le", "in", "eqv", "var", "self"):
+                    seen.setdefault(a, set()).add(n)
+                    first.setdefault(a, (e, n))
+    return [(a, first[a][0], first[a][1]) for a in sorted([a for a, ns in seen.items() if len(ns) >= 2], key=repr)]
+
+
 class SeededApplication:
     """Injection-before-application analysis for one entry method of a seeded wrapper."""
 
@@ -150,13 +176,50 @@ class SeededApplication:
         return out
 
     def check_member(self, C: ClassInfo, fi: FuncInfo, member: Member, types: Set[tuple], needs: Dict[str, bool],
-                     assume: Dict[Term, bool], gen_terms: Set[Term]) -> List[Tuple[Optional[bool], str, int]]:
+                     assume: Dict[Term, bool], gen_terms: Set[Term], _split: bool = True, _needed=None
+                     ) -> List[Tuple[Optional[bool], str, int]]:
         """-> [(verdict, detail, line)] one per application site of the member (after pruning)."""
         res = []
-        needed = self.own.needed_classes(types, needs)
+        needed = self.own.needed_classes(types, needs) if _needed is None else _needed
         if not needed:
             return res
         fa = fa_of(self.prog, fi).prune(assume)
+        if _split:
+            # correlated tests ('if seeded and accepts: inject' ... 'if joint: apply' with accepts = joint or ...): the same atomic
+            # condition is tested at several places; decide each combination of such atoms on its own pruned CFG
+            from ..fa import eval_truth
+            atoms_x = _shared_atoms(fa)
+            atoms_x = [(a, e, nn) for a, e, nn in atoms_x if a not in assume and ("not", a) not in assume
+                       and eval_truth(a, assume) is None][:3]
+            atoms = [a for a, _, _ in atoms_x]
+            if atoms:
+                import itertools
+                by_line: Dict[int, List[Tuple[Optional[bool], str]]] = {}
+                for vals in itertools.product((True, False), repeat=len(atoms)):
+                    case = dict(assume)
+                    case.update(dict(zip(atoms, vals)))
+                    # an isinstance atom about this member restricts which of the classes that need the generator the case
+                    # is about (those its class tuple admits / does not admit); a case about no such class is vacuous
+                    sub = list(needed)
+                    for (a, e, nn), v in zip(atoms_x, vals):
+                        if isinstance(e, ast.Call) and isinstance(e.func, ast.Name) and e.func.id == "isinstance" and len(e.args) == 2:
+                            try:
+                                about = self.fwd.access_of(fa, e.args[0], nn) == member
+                            except Exception:  # pragma: no cover
+                                about = False
+                            classes = self.own.guard_classes(fa.fi, e.args[1]) if about else None
+                            if classes is not None:
+                                sub = [k for k in sub if any(g in k.mro() for g in classes) == v]
+                    if not sub:
+                        continue
+                    for ok_, why_, line_ in self.check_member(C, fi, member, types, needs, case, gen_terms, _split=False,
+                                                              _needed=sub):
+                        by_line.setdefault(line_, []).append((ok_, why_))
+                for line_, vs in sorted(by_line.items()):
+                    bad = [v for v in vs if v[0] is False]
+                    unk = [v for v in vs if v[0] is None]
+                    res.append((False, bad[0][1], line_) if bad else ((None, unk[0][1], line_) if unk else (True, vs[0][1], line_)))
+                return res
         removed, narrow = self.fwd.guard_edges(fa, member, needed)
         # aliases: a loop over self.<list> that holds this attribute
         alias_lists = [lst for lst, attrs in self.own.types.aliases(C).items() if member.kind == "attr"
